@@ -30,30 +30,35 @@ def load_table(fb):
     nothing is loaded, the mark of the outer load stays"""
     w = World(fb)
     rows = []
-    for scenario in ("ok", "load-fails", "in-progress"):
-        lib = Val("library-name")
-        libtok, E = Val("library"), Val("load-error")
-        selfv = [UNKNOWN for _ in w.fields]
-        marks = Map()
-        if scenario == "in-progress":
-            marks.d[machine.key_of(lib)] = (lib, True)
-        selfv[w.fields.index("imported_library")] = marks
-        ev = []
+    base = ("lib",)
+    forms = [("", base), ("/only", ("only", base, ["a"])), ("/except", ("except", base, ["b"])), ("/prefix", ("prefix", base, "p-")),
+             ("/rename", ("rename", base, [("a", "x")])), ("/only-of-prefix", ("only", ("prefix", base, "p-"), ["p-a"])),
+             ("/rename-of-only", ("rename", ("only", base, ["a"]), [("a", "x")]))]
+    for suffix, spec in forms:
+        for scenario in ("ok", "load-fails", "in-progress"):
+            lib = Val("library-name")
+            libtok, E = Val("library"), Val("load-error")
+            selfv = [UNKNOWN for _ in w.fields]
+            marks = Map()
+            if scenario == "in-progress":
+                marks.d[machine.key_of(lib)] = (lib, True)
+            selfv[w.fields.index("imported_library")] = marks
+            ev = []
 
-        def icpt(mc, c, a, tt, g):
-            if c == ITP + "get_library":
-                ev.append(("get_library", len(marks.d)))
-                return err(E) if scenario == "load-fails" else ok(libtok)
-            if c.endswith("Library::iter_definitions"):
-                return Iter([["a", Val("A")]]) if a and a[0] is libtok else UNKNOWN
-            return NOT
-        mc = Machine(fb, intercept=icpt, max_visits=10, budget=600)
-        try:
-            res = mc.run(w.f, [selfv, w.direct(lib)])
-        except (absint.Stuck, absint.Loop) as e:
-            rows.append((scenario, {"stuck": str(e)}))
-            continue
-        rows.append((scenario, {"result": res, "loads": ev, "marks_left": len(marks.d), "error": E}))
+            def icpt(mc, c, a, tt, g, scenario=scenario, marks=marks, ev=ev, libtok=libtok, E=E):
+                if c == ITP + "get_library":
+                    ev.append(("get_library", len(marks.d)))
+                    return err(E) if scenario == "load-fails" else ok(libtok)
+                if c.endswith("Library::iter_definitions"):
+                    return Iter([["a", Val("A")], ["b", Val("B")]]) if a and a[0] is libtok else UNKNOWN
+                return NOT
+            mc = Machine(fb, intercept=icpt, max_visits=10, budget=800)
+            try:
+                res = mc.run(w.f, [selfv, w.build(spec, lib)])
+            except (absint.Stuck, absint.Loop) as e:
+                rows.append((scenario + suffix, {"stuck": str(e)}))
+                continue
+            rows.append((scenario + suffix, {"result": res, "loads": ev, "marks_left": len(marks.d), "error": E}))
     return w.f, rows
 
 
@@ -64,6 +69,7 @@ def rule_load(ctx, rule_pairing, rule_cycle):
     decided = 0
     for scenario, d in rows:
         key = "import-library/%s" % scenario
+        scenario = scenario.split("/")[0]
         rule = rule_cycle if scenario == "in-progress" else rule_pairing
         if "stuck" in d:
             ctx.undecided(rule, key, "cannot follow eval_import_set (%s)" % d["stuck"], where_of(f))
@@ -72,6 +78,8 @@ def rule_load(ctx, rule_pairing, rule_cycle):
         res = d["result"]
         if scenario == "ok":
             good = getattr(res, "name", None) == "Ok" and len(d["loads"]) == 1 and d["loads"][0][1] == 1 and d["marks_left"] == 0
+            if len(d["loads"]) == 1 and d["loads"][0][1] == 0:
+                rule = rule_cycle
             msg = "importing a library loads it %d time(s) (marked in progress during the load: %s) and leaves %d in-progress mark(s); result %r" % (
                 len(d["loads"]), [x[1] for x in d["loads"]], d["marks_left"], res)
         elif scenario == "load-fails":
@@ -223,7 +231,8 @@ def definition_table(fb):
             e.name, e.adt = name, "parser::parser::ExportSpec"
             return located(e)
         I1, S1, S2 = Val("import-declaration"), Val("statement-1"), Val("statement-2")
-        exports = [exp("Direct", "a"), exp("Rename", "b", "bb")]
+        # a is exported twice (under its own name and under an alias): both names are part of the interface
+        exports = [exp("Direct", "a"), exp("Rename", "b", "bb"), exp("Rename", "a", "a2")]
         libname = Val("library-name")
         libdef = [libname, [decl("ImportDeclaration", I1), decl("Export", exports), decl("Begin", [S1, S2])]]
         importer_env = Val("importer-env")
@@ -295,13 +304,13 @@ def rule_definition(ctx, rule_env, rule_exports):
         if scenario == "exports-bound":
             maps = [x for x in _maps(res)]
             got = sorted((k, id(v)) for m in maps[:1] for k, v in m.d.values()) if maps else None
-            want = sorted([("a", id(d["VA"])), ("bb", id(d["VB"]))])
+            want = sorted([("a", id(d["VA"])), ("a2", id(d["VA"])), ("bb", id(d["VB"]))])
             good = getattr(res, "name", None) == "Ok" and got == want
             ctx.inst(rule_exports, key, {"exported": sorted(k for m in maps[:1] for k, v in m.d.values()) if maps else None})
             ctx.oblige(good)
             if not good:
-                ctx.report(rule_exports, key, "a library exporting a and (rename b bb) while also defining `hidden` yields %r with the table %s; "
-                           "expected exactly a and bb bound to the values of a and b" % (
+                ctx.report(rule_exports, key, "a library exporting a, (rename b bb) and (rename a a2) while also defining `hidden` yields %r with the table %s; "
+                           "expected exactly a, a2 and bb bound to the values of a, a and b" % (
                                getattr(res, "name", res), [(k, repr(v)) for m in maps[:1] for k, v in m.d.values()] if maps else None), where_of(f))
         else:
             ub = find_enum(res, "UnboundedSymbol")
